@@ -4,6 +4,14 @@ import json, os
 V = os.path.dirname(os.path.dirname(os.path.abspath(__file__)))
 
 CLAIMED = {
+ 'C01': dict(
+  text='Static decision, on every instantiated member of Array/Stack/Queue for int, String, Var and nested-array elements, of the structural '
+       'clauses behind memory safety and exactly-once element lifetime: no argument that may alias an element is used after the storage was '
+       'released or moved (R-ALIAS, with interprocedural summaries), no re-read of an argument array\'s live length after a self-resize (R-SELFARG), '
+       'no element reference held across element writes (R-ELEMREF), the reference-count protocol of the handle (R-RC a-f), construct/destroy '
+       'pairing with every count change on all CFG paths, Stack/Queue thinness. Sequence-model equality over histories is not decided.',
+  technique='typestate dataflow over CFGs of clang-instantiated template members (alias-after-invalidate, refcount protocol, element lifetime pairing) with call-graph fixpoint summaries',
+  ref='DESIGN.md section 3 C01'),
  'C16': dict(
   text='Static decision of the structural clauses of the canonical-bytes property for every instantiated stream operator: '
        'byte counts of raw transfers carry the element size (R-UNITS), every scalar operator moves exactly sizeof(T) bytes and swaps '
